@@ -88,6 +88,47 @@ def inst (θ : VId → Option Pat) : Pat → Option Pat
   | esub p x plug => do let p' ← inst θ p; let q' ← inst θ plug; applyESubst x q' p'
   | ssub p X plug => do let p' ← inst θ p; let q' ← inst θ plug; applySSubst X q' p'
 
+/-- `instantiate_internal` arm by arm, INCLUDING the `Option`-"unchanged" optimisation: outer `none` = a panic, inner
+`none` = "unchanged" (Rust `None`).  `instantiate_in_place` is `(instU …).map (·.getD p)`.  On patterns whose substitution
+nodes are meta-headed it agrees with `inst` (`Pi2.InstUThm`); on other patterns (which the machine cannot build) the
+Rust code returns the node unchanged where `inst` would push the substitution in — the correspondence harness compares
+the real checker with this function on ALL patterns. -/
+def instU (vars : List VId) (plugs : List Pat) : Pat → Option (Option Pat)
+  | evar _ => some none | svar _ => some none | sym _ => some none
+  | mv id ef sf ps ns _ =>
+      match vars.idxOf? id with
+      | none => some none
+      | some pos =>
+          match plugs[pos]? with
+          | none => none                                   -- index out of bounds / "does not contain a corresponding value"
+          | some q => if okPlug ef sf ps ns q then some (some q) else none
+  | imp l r => do
+      let a ← instU vars plugs l
+      let b ← instU vars plugs r
+      match a, b with
+      | none, none => pure none
+      | _, _ => pure (some (imp (a.getD l) (b.getD r)))
+  | app l r => do
+      let a ← instU vars plugs l
+      let b ← instU vars plugs r
+      match a, b with
+      | none, none => pure none
+      | _, _ => pure (some (app (a.getD l) (b.getD r)))
+  | ex x p => do let a ← instU vars plugs p; pure (a.map (ex x))
+  | mu X p => do let a ← instU vars plugs p; pure (a.map (mu X))
+  | esub p x plug => do
+      let a ← instU vars plugs p
+      let b ← instU vars plugs plug
+      match a, b with
+      | none, none => pure none
+      | _, _ => (applyESubst x (b.getD plug) (a.getD p)).map some
+  | ssub p X plug => do
+      let a ← instU vars plugs p
+      let b ← instU vars plugs plug
+      match a, b with
+      | none, none => pure none
+      | _, _ => (applySSubst X (b.getD plug) (a.getD p)).map some
+
 /-- `vars.iter().position(..)` then `plugs[pos]`: first matching id wins -/
 def lookupPlug : List VId → List Pat → VId → Option Pat
   | i :: is, p :: ps, k => if i = k then some p else lookupPlug is ps k
